@@ -2,10 +2,12 @@ package main
 
 import (
 	"fmt"
+	"io"
 	"net/http/httptest"
 	"sort"
 	"strings"
 
+	"github.com/gookit/color"
 	"github.com/gookit/rux"
 )
 
@@ -652,7 +654,34 @@ func (e *regRun) request(method, path string) (string, string) {
 	return kind + " " + strings.Join(chain, ","), allow
 }
 
+// Run: the registration program on the real router; every third case is then run again in rux's debug mode
+// (rux.Debug(true) during registration AND dispatch: it only prints, to gookit/color's output, which is discarded
+// meanwhile) - every answer must be the one of the normal run.
 func (regEngine) Run(ops []string) (ans []string, oracle []string) {
+	ans, oracle = regRunOnce(ops)
+	if len(ops)%3 != 1 {
+		return
+	}
+	var dbg []string
+	func() {
+		color.SetOutput(io.Discard)
+		rux.Debug(true)
+		defer func() {
+			rux.Debug(false)
+			color.ResetOutput()
+		}()
+		dbg, _ = regRunOnce(ops)
+	}()
+	for i := range ans {
+		if i < len(dbg) && dbg[i] != ans[i] {
+			oracle = append(oracle, fmt.Sprintf("C12 debug mode: with rux.Debug(true) op %d (%s) answers %q, otherwise %q", i, ops[i], dbg[i], ans[i]))
+			break
+		}
+	}
+	return
+}
+
+func regRunOnce(ops []string) (ans []string, oracle []string) {
 	e := newRegRun(false, 0)
 	for _, op := range ops {
 		if o, c, ok := parseNew(strings.Fields(op)); ok {
